@@ -978,8 +978,8 @@ def path_cases(rng, big):
             for pc in (range(len(PATH_CLASSES)) if api < 3 else [0]):
                 w = rng.choice(WIDTHS)
                 other = rng.choice(names)
-                if len(other) > 100:
-                    other = other[:rng.choice([0, 3, 100])]
+                if len(other) > 100:      # cut on a character boundary: the names are UTF-8 text
+                    other = list(bytes(other[:rng.choice([0, 3, 100])]).decode("utf-8", "ignore").encode("utf-8"))
                 a, b = (nm, other) if rng.random() < 0.5 else (other, nm)
                 out.append((1199, [[X_PATHS, api, pc, rid(rng, w), w], a, b]))
     return out
